@@ -69,7 +69,7 @@ func TestSweep(t *testing.T) {
 		sels, seeds := ssServerSeeds()
 		n := 0
 		for i := range seeds {
-			if sels[i]&ssRaw != 0 || sels[i]&ssFixLen == 0 || n >= 4 {
+			if sels[i]&ssRaw != 0 || sels[i]&ssFixLen == 0 || n >= 3 {
 				continue
 			}
 			n++
@@ -93,7 +93,7 @@ func TestSweep(t *testing.T) {
 				continue
 			}
 			n++
-			sweep(seeds[i], 120, func(m []byte) { oracleSS2022UDPServer(t, sels[i], m) })
+			sweep(seeds[i], 90, func(m []byte) { oracleSS2022UDPServer(t, sels[i], m) })
 		}
 		csels, cseeds := ssUDPClientSeeds()
 		for _, i := range []int{0, 1} {
